@@ -69,6 +69,9 @@ func TestC15Rotation(t *testing.T) {
 		if s.PrunedOutsideRotation > 0 {
 			cl = append(cl, "pruned_outside_rotation")
 		}
+		if s.Wipes > 0 {
+			cl = append(cl, "directory_removed_then_reopen")
+		}
 		if s.Restarts > 0 {
 			cl = append(cl, "restart_new_sink_value")
 		}
